@@ -494,7 +494,7 @@ class DependsWorld:
                             'back': rng.random() < 0.35, 'poke': rng.choice([None, None] + list(leafs)), 'once': rng.random() < 0.2,
                             'poke_new': rng.choice([None] + list(leafs))})
             elif k == 'batch_leaf':
-                ops.append({'op': 'batch_leaf', 'variant': rng.choice(['mid', 'back', 'deep', 'deep']), 'at': rng.randint(0, cfg['pool']),
+                ops.append({'op': 'batch_leaf', 'variant': rng.choice(['mid', 'back', 'deep', 'deep', 'same']), 'at': rng.randint(0, cfg['pool']),
                             'slot': rng.choice(slots), 'n1': rng.randrange(cfg['pool']), 'n2': rng.randrange(cfg['pool']), 'pi': rng.randrange(6)})
             elif k == 'subbatch':
                 ops.append({'op': 'subbatch', 'n': rng.randrange(cfg['pool']), 'p': rng.choice(leafs), 'at': rng.randint(0, cfg['pool']),
@@ -799,6 +799,47 @@ class DependsWorld:
                         sl = SLOTS[0]
                     was = att[(h, sl)]
                     n1, n2 = op['n1'] % len(pool), op['n2'] % len(pool)
+                    if variant == 'same':
+                        # the very same object is assigned to the slot inside the batch, then one of its leaves: nothing is
+                        # replaced, the change is announced by the object as always
+                        if was is None or (h != 'P' and h not in reachable()) or loop is not None:
+                            continue
+                        ok_m = [mi_ for mi_, m_ in enumerate(cfg['methods']) if not m_.get('async') and
+                                not any('.' not in d or d.endswith('param') for d in m_['deps'])]
+                        used2 = [d.split('.')[-1] for mi_ in ok_m for d in cfg['methods'][mi_]['deps']]
+                        if not used2:
+                            continue
+                        p2 = used2[op.get('pi', 0) % len(used2)]
+                        settle()
+                        del log[:]
+                        v0 = snapshot()
+                        counter[0] += 1
+                        with param.parameterized.batch_call_watchers(real(h)):
+                            setattr(real(h), sl, pool[was])
+                            setattr(pool[was], p2, counter[0])
+                            leaf[was][p2] = counter[0]
+                        settle()
+                        v2 = snapshot()
+                        got = list(log)
+                        del log[:]
+                        desc = f"batch on {h}: {h}.{sl} = N{was} (the object it holds), N{was}.{p2} = {counter[0]} (same)"
+                        out.log.append(f"{step} {desc} -> calls {got}")
+                        out.stats['op.batch_leaf'] += 1
+                        out.stats['probe.leaf_of_newly_attached_object_set_inside_the_batch.same'] += 1
+                        for mi in ok_m:
+                            if 'UNRESOLVED' in v0[mi] or 'UNRESOLVED' in v2[mi]:
+                                continue
+                            want = 1 if v0[mi] != v2[mi] else 0
+                            out.stats['decided_method_checks'] += 1
+                            if got.count(mi) != want:
+                                out.violations.append(('C07.fire' if got.count(mi) < want else 'C07.silent', step,
+                                                       f"{desc}: m{mi} depends on {cfg['methods'][mi]['deps']}; it saw {v0[mi]} before and the path "
+                                                       f"shows {v2[mi]} at the end: {want} call(s), it ran {got.count(mi)} times"))
+                                break
+                        if out.violations:
+                            break
+                        states.append(f"{sorted((str(h_), v) for h_, v in att.items() if v is not None)}|{k}")
+                        continue
                     if (variant == 'deep') != (h != 'P') or was is None or (h != 'P' and h not in reachable()):
                         continue
                     def crisp(m_):
